@@ -54,7 +54,16 @@ def block_mutants():
         first = re.split(r"(?<=[.;:])\s", what, 1)[0][:260]
         out.append("| %s | %s | %s | %s |" % (m["id"], m["property"], first, (m.get("detected_by") or "").replace("|", "/")))
         n += 1
-    return f"{n} seeded changes kept under /verif/seeded (each: patch.diff, demo_test.go.txt, meta.json):\n\n" + "\n".join(out)
+    note = ""
+    try:
+        det = json.load(open(f"{ROOT}/seeded/DETECTION.json"))
+        ok = sum(1 for v in det.values() if v.get("detected"))
+        heads = sorted({v.get("repo_head") for v in det.values() if v.get("repo_head")})
+        note = (f" Detection was re-checked for all of them after the last extension of the checks (`run/recheck_detection.py`: apply, run the "
+                f"quick tier at VERIF_SEED=1, restore): {ok} of {len(det)} reported a violation (/repo at {', '.join(heads)}; result in seeded/DETECTION.json).")
+    except Exception:
+        pass
+    return f"{n} seeded changes kept under /verif/seeded (each: patch.diff, demo_test.go.txt, meta.json).{note}\n\n" + "\n".join(out)
 
 
 BLOCKS = {"CHECKS": block_checks, "OPEN": block_open, "FIXED": block_fixed, "MUTANTS": block_mutants}
